@@ -13,6 +13,8 @@ LEVEL = "exploration"
 
 PREAMBLE = c07.PREAMBLE + r'''
 namespace c14 {
+// value identity (long double has padding bytes, so memcmp over sizeof is not meaningful for it)
+template <typename T> bool same_val(T a, T b) { return std::memcmp(&a, &b, sizeof(T) == 16 ? 10 : sizeof(T)) == 0; }
 template <typename T, bool IsQ> struct Out;
 template <typename U, typename R> struct IsQuantity : std::false_type {};
 template <typename T> struct QInfo {
@@ -104,7 +106,8 @@ def check(run):
                     probes.append(core.Probe(("qq-unblock", a.name, b.name, ra, rb),
                                              "auto x = au::make_quantity<%s>(static_cast<%s>(6)) / au::unblock_int_div(au::make_quantity<%s>(static_cast<%s>(4))); (void)x;" % (a.cpp, ra, b.cpp, rb), "accept"))
     # scalar / quantity
-    for u in (U["seconds"], U["meters"], U["unos"], U["percent"]):
+    # (int / Quantity<Unos,int> is left out: Unos is quantity-equivalent to the unitless unit, i.e. the "equivalent units" case)
+    for u in (U["seconds"], U["meters"], U["percent"], U["hertz"]):
         for rs in R11:
             for rq in R11:
                 blocked = rs in I8 and rq in I8
@@ -141,13 +144,13 @@ def check(run):
         for r in F3:
             for fn, kk in (("sqrt", 2), ("cbrt", 3)):
                 stm = ['{ auto q = au::make_quantity<%s>(static_cast<%s>(7.25)); auto p = au::%s(q); using P = decltype(p);' % (u.cpp, r, fn),
-                       'vf_kv("u", c14::QInfo<P>::unit()); vf_b("bits", vf::same_bits(p.in(P::unit), std::%s(static_cast<%s>(7.25))));' % (fn, r),
+                       'vf_kv("u", c14::QInfo<P>::unit()); vf_b("bits", c14::same_val(p.in(P::unit), std::%s(static_cast<%s>(7.25))));' % (fn, r),
                        'vf_b("rep", c14::QInfo<P>::template rep_is<decltype(std::%s(static_cast<%s>(7.25)))>()); }' % (fn, r)]
                 recs.append((rid, stm))
                 meta[rid] = {"kind": "root", "u": u, "r": r, "k": kk}
                 rid += 1
             stm = ['{ auto q = au::make_quantity<%s>(static_cast<%s>(7.25)); auto p = static_cast<%s>(1) / q; using P = decltype(p);' % (u.cpp, r, r),
-                   'vf_kv("u", c14::QInfo<P>::unit()); vf_b("bits", vf::same_bits(p.in(P::unit), static_cast<%s>(1) / static_cast<%s>(7.25))); vf_b("rep", c14::QInfo<P>::template rep_is<%s>()); }' % (r, r, r)]
+                   'vf_kv("u", c14::QInfo<P>::unit()); vf_b("bits", c14::same_val(p.in(P::unit), static_cast<%s>(1) / static_cast<%s>(7.25))); vf_b("rep", c14::QInfo<P>::template rep_is<%s>()); }' % (r, r, r)]
             recs.append((rid, stm))
             meta[rid] = {"kind": "root", "u": u, "r": r, "k": -1}
             rid += 1
@@ -216,7 +219,9 @@ def check(run):
             elif m["kind"] == "ipow":
                 u, k = m["u"], m["k"]
                 dim, mag = model.vpow(u.dim, k), model.vpow(u.mag, k)
-                if (not dim) and (not mag):
+                if k == 0:
+                    pass      # degenerate power: unit is the unitless unit; raw number vs unitless Quantity is not judged
+                elif (not dim) and (not mag):
                     if o["q"]:
                         viol("ipow-not-raw", "int_pow<%d> cancels the unit but returns a Quantity" % k)
                 elif not o["q"]:
